@@ -76,7 +76,7 @@ def _type_map(et, exp):
     """Documented normalisation: what argparse cannot express falls back to str (here: a parameter without any type)."""
     if et is None:
         return {None, "str", "Optional[str]"}
-    if et in domain.MIXED_UNIONS:  # not expressible: str (not one of the scalars the type happens to mention)
+    if et in domain.MIXED_UNIONS and not exp.get("_is_return"):  # not expressible (a return type is only ever text): str (not one of the scalars the type happens to mention)
         return {"Optional[str]"} if et.startswith("Optional[") else {"str"}
     return {et}
 
